@@ -37,7 +37,7 @@ REQUIRED = [
     "judged:isolated-free-exact", "judged:one-free-point-one-iteration", "judged:contraction",
     "judged:converged:quad", "judged:converged:hex", "judged:regular-lattice:quad", "judged:regular-lattice:hex",
     "judged:copy-back-shared-point", "judged:grid-vs-faces", "judged:grid-vs-vertices", "judged:written-file",
-    "judged:fixed-after-the-first-smoothing", "late-fix:by-pos", "late-fix:by-idx", "judged:sketch-translated-after-smoothing",
+    "judged:fixed-after-the-first-smoothing", "late-fix:by-pos", "late-fix:by-idx", "judged:sketch-translated-after-smoothing", "hex:projected-corners", "history:mesh-backported-between-smooth-calls",
     "judged:default-iterations", "moved:free-point", "stage:second-smooth-call",
 ]
 RULE = (
@@ -845,11 +845,18 @@ def run_hex(ctx, case):
     hexes = case["hexes"]
     judge = Judge(ctx, case, "hex", hexes, P0)
     mesh = cb.Mesh()
-    for h in hexes:
+    flavour = int(judge.ext * 1e6)
+    for hi, h in enumerate(hexes):
         pts = B0[h]
         op = cb.Loft(cb.Face(pts[:4]), cb.Face(pts[4:]))
         for axis in range(3):
             op.chop(axis, count=2)
+        if flavour % 4 == 0 and hi == 0:
+            # some corners of the first block are projected to a geometry: that is no reason for them to stay put
+            op.project_corner(6, "prj")
+            op.project_corner(flavour % 8, "prj")
+            mesh.add_geometry({"prj": ["type sphere", "origin (0 0 0)", "radius 1000"]})
+            ctx.count("hex:projected-corners")
         mesh.add(op)
     mesh.assemble()
     verts = mesh.vertices
@@ -885,6 +892,10 @@ def run_hex(ctx, case):
     agree = 1e-10 * judge.ext
     X = None
     for si, k in enumerate(case["stages"]):
+        if si and flavour % 3 == 0:
+            # history: the mesh is back-ported (re-assembled: new Vertex objects) between two smooth() calls of one smoother
+            mesh.backport()
+            ctx.count("history:mesh-backported-between-smooth-calls")
         _smooth(ctx, judge, smoother, k)
         ctx.evaluated()
         if len(mesh.vertices) != len(P0):
